@@ -339,6 +339,9 @@ def fold_bool(c):
         if c[1] in ("In", "NotIn") and a[0] == "str" and b[0] == "dict":
             present = any(k == a for k, _ in b[1])
             return ("bool", present if c[1] == "In" else not present)
+        if c[1] in ("In", "NotIn") and b[0] == "dict" and is_literal_key(a) and all(is_literal_key(k) for k, _ in b[1]):
+            present = any(k == a for k, _ in b[1])
+            return ("bool", present if c[1] == "In" else not present)
         if a[0] in ("str", "num") and b[0] == a[0]:
             x, y = a[1], b[1]
             try:
@@ -401,6 +404,11 @@ def fold_bool(c):
     return c
 
 
+def is_literal_key(t):
+    """a hashable literal: number, string, bool, None or a tuple of such"""
+    return t[0] in ("num", "str", "bool", "none") or (t[0] == "tuple" and all(is_literal_key(x) for x in t[1:]))
+
+
 def is_numeric_term(t):
     """arithmetic over literals and NUM_* symbols (the convention for int/float arguments)"""
     h = t[0]
@@ -443,6 +451,12 @@ def iter_items(it):
         if it[1] == "enumerate":
             return [("tuple", T.num(i), x) for i, x in enumerate(subs[0])]
         return list(reversed(subs[0]))
+    if it[0] == "call" and it[1] in ("combinations", "itertools.combinations") and len(it) == 4 and is_int_literal(it[3]) and 0 <= it[3][1] <= 3:
+        sub = iter_items(it[2])
+        if sub is None or len(sub) > 12:
+            return None
+        import itertools
+        return [("tuple",) + tuple(c) for c in itertools.combinations(sub, int(it[3][1]))]
     return None
 
 
@@ -974,6 +988,9 @@ def binop(ctx, op, a, b):
     if k is ast.Sub:
         return T.sub(a, b)
     if k is ast.Mult:
+        for seq, cnt in ((a, b), (b, a)):
+            if seq[0] in ("list", "tuple") and is_int_literal(cnt) and 0 <= cnt[1] <= 64:
+                return (seq[0],) + seq[1:] * int(cnt[1])          # [x] * n: a literal sequence repeated
         return T.mul(a, b)
     if k is ast.Div:
         return T.div(a, b)
